@@ -759,3 +759,72 @@ func sortedVarNames(fv map[string]*Term) []string {
 	sort.Strings(names)
 	return names
 }
+
+// Subst replaces variables by terms (used to rewrite a goal with variable
+// equalities of the path condition); rebuilt through the constructors so that
+// folding applies.
+func Subst(t *Term, alias map[string]*Term, memo map[*Term]*Term) *Term {
+	if len(alias) == 0 {
+		return t
+	}
+	if r, ok := memo[t]; ok {
+		return r
+	}
+	var r *Term
+	switch t.Op {
+	case "const":
+		r = t
+	case "var":
+		if a, ok := alias[t.Name]; ok {
+			r = a
+		} else {
+			r = t
+		}
+	default:
+		hit := false
+		for n := range t.FreeVars() {
+			if _, ok := alias[n]; ok {
+				hit = true
+				break
+			}
+		}
+		if !hit {
+			r = t
+			break
+		}
+		args := make([]*Term, len(t.Args))
+		for i, a := range t.Args {
+			args[i] = Subst(a, alias, memo)
+		}
+		switch t.Op {
+		case "not":
+			r = Not(args[0])
+		case "and":
+			r = And(args[0], args[1])
+		case "or":
+			r = Or(args[0], args[1])
+		case "=":
+			r = Eq(args[0], args[1])
+		case "bvult", "bvule", "bvslt", "bvsle":
+			r = Cmp(t.Op, args[0], args[1])
+		case "ite":
+			r = Ite(args[0], args[1], args[2])
+		case "bvnot":
+			r = BVNot(args[0])
+		case "bvneg":
+			r = BVNeg(args[0])
+		case "zext":
+			r = ZExt(args[0], t.W)
+		case "sext":
+			r = SExt(args[0], t.W)
+		case "extract":
+			r = Extract(args[0], t.Hi, t.Lo)
+		case "concat":
+			r = Concat(args[0], args[1])
+		default:
+			r = BinBV(t.Op, args[0], args[1])
+		}
+	}
+	memo[t] = r
+	return r
+}
